@@ -3,7 +3,9 @@
  * select with a finite timeout that reported readiness, and optionally cap transfer sizes / inject EINTR.
  *
  * usage: pamh <cases-file>
- * case line (TAB separated): id user_hex pw_hex pwsrc opts sock wcap rcap eintr wdelay_ms
+ * case line (TAB separated): id user_hex pw_hex pwsrc opts sock wcap rcap eintr wdelay_ms errno0
+ *   errno0: value of errno when pam_sm_authenticate is entered (what an earlier, unrelated system call of the host
+ *           application left behind); -1 = leave as is
  *   wdelay_ms: sleep this long before the first write on the socket (models the process being descheduled)
  *   pwsrc: stack | conv | conv-fail | conv-null | conv-again | none(no authtok, use_first_pass)   user_hex "-" = pam_get_user fails
  *   opts: comma separated module options (without sock=), e.g. debug,try_first_pass,timeout=1
@@ -87,8 +89,15 @@ ssize_t __real_send(int fd, const void *buf, size_t n, int flags);
 
 static int is_sock(int fd) { struct stat st; return fd >= 0 && fstat(fd, &st) == 0 && S_ISSOCK(st.st_mode); }
 
+#define SPIN_LIMIT 200000 /* no case transfers more than ~70000 bytes; the module is spinning */
+static const char *cur_case = "";
+
 int __wrap_select(int nfds, fd_set *r, fd_set *w, fd_set *e, struct timeval *tv) {
   n_select++;
+  if (n_select > SPIN_LIMIT) {
+    printf("SPIN\t%s\t%ld\t%ld\t%ld\n", cur_case, n_select, n_read, n_write); fflush(stdout);
+    _exit(95);
+  }
   if (!tv) n_nonfinite++;
   else { double t = tv->tv_sec + tv->tv_usec / 1e6; if (t > max_sel_timeout) max_sel_timeout = t; }
   if (eintr_mask & 1) { eintr_mask &= ~1u; errno = EINTR; return -1; }
@@ -142,13 +151,15 @@ int main(int argc, char **argv) {
   if (!f) return 2;
   char *line = NULL; size_t cap = 0;
   while (getline(&line, &cap, f) > 0) {
-    char *fields[10]; int nf = 0;
+    char *fields[11]; int nf = 0;
     char *p = line; line[strcspn(line, "\n")] = 0;
-    while (nf < 10) { fields[nf++] = p; char *t = strchr(p, '\t'); if (!t) break; *t = 0; p = t + 1; }
+    while (nf < 11) { fields[nf++] = p; char *t = strchr(p, '\t'); if (!t) break; *t = 0; p = t + 1; }
     if (nf < 9) continue;
     wdelay_ms = nf >= 10 ? atol(fields[9]) : 0;
     /* announce the case before running it: a sanitizer abort still leaves the witness */
     printf("BEGIN\t%s\n", fields[0]); fflush(stdout);
+    cur_case = fields[0];
+    int errno0 = nf >= 11 ? atoi(fields[10]) : -1;
     struct pam_handle ph; memset(&ph, 0, sizeof(ph));
     char *user = strcmp(fields[1], "-") ? unhex(fields[1]) : NULL;
     char *pw = unhex(fields[2]);
@@ -168,6 +179,7 @@ int main(int argc, char **argv) {
     memset(ready_r, 0, sizeof ready_r); memset(ready_w, 0, sizeof ready_w);
     struct timespec t0, t1; clock_gettime(CLOCK_MONOTONIC, &t0);
     int flags = strstr(fields[4], "PAM_SILENT") ? (int)PAM_SILENT : 0;
+    if (errno0 >= 0) errno = errno0;
     int rc = pam_sm_authenticate(&ph, flags, ac, av);
     clock_gettime(CLOCK_MONOTONIC, &t1);
     long ms = (t1.tv_sec - t0.tv_sec) * 1000 + (t1.tv_nsec - t0.tv_nsec) / 1000000;
